@@ -1,6 +1,6 @@
 """C01 - the steady-state solution obeys Kirchhoff's laws and every element law."""
 from __future__ import annotations
-import itertools
+import itertools, os
 from ..common import (CaseResult, Naming, N_SCHEMES, stable_hash, gauss, close, call, exc_sig, ensure_repo_import)
 from ..netbuild import build_network, UNITS, role_of, scales
 
@@ -24,7 +24,7 @@ def models(tier, seed):
 
 
 def required_tags(tier):
-    return ['planted', 'shipped_example', 'branches>=10', 'parallel', 'ref_only_vsrc', 'linear_src', 'reversed', 'complex', 'k:load_v', 'k:voltage_source', 'k:current_source', 'k:short_circuit', 'k:open_circuit']
+    return ['planted', 'shipped_example', 'repository_test_solve', 'branches>=10', 'parallel', 'ref_only_vsrc', 'linear_src', 'reversed', 'complex', 'k:load_v', 'k:voltage_source', 'k:current_source', 'k:short_circuit', 'k:open_circuit']
 
 
 def tags_of(case):
@@ -306,6 +306,88 @@ def shipped_examples():
     return out
 
 
+def recorded_test_solves(tier):
+    import json, subprocess, sys, tempfile, shutil, math
+    from fractions import Fraction
+    from ..common import REPO, REPO_SRC, VERIF, MachineryError
+    from ..trace import judge
+    tmp = tempfile.mkdtemp(prefix='verif_c01_tests_')
+    try:
+        out = os.path.join(tmp, 'solves.jsonl')
+        env = dict(os.environ, PYTHONPATH=f'{REPO_SRC}{os.pathsep}{VERIF}', VERIF_TRACE_OUT=out, HYPOTHESIS_STORAGE_DIRECTORY=os.path.join(tmp, 'hyp'), MPLBACKEND='Agg')
+        targets = ['tests/test_integration.py', 'tests/Circuit/solution'] if tier == 'quick' else ['tests']
+        p = subprocess.run([sys.executable, '-m', 'pytest', '-q', '-x', '-p', 'no:cacheprovider', '-p', 'harness.pytest_tracer'] + targets, cwd=REPO, env=env,
+                           capture_output=True, text=True, timeout=1200)
+        if not os.path.exists(out):
+            raise MachineryError('the repository tests were run under the tracer but no solve was recorded:\n' + (p.stdout + p.stderr)[-1500:])
+        recs = [json.loads(l) for l in open(out)]
+    finally:
+        shutil.rmtree(tmp, ignore_errors=True)
+
+    def fg(z):
+        re, im = Fraction(z[0]).limit_denominator(10 ** 6), Fraction(z[1]).limit_denominator(10 ** 6)
+        if abs(float(re) - z[0]) > 1e-15 * abs(z[0]) or abs(float(im) - z[1]) > 1e-15 * abs(z[1]):
+            return None
+        return [[re.numerator, re.denominator], [im.numerator, im.denominator]]
+    events, meta, seen = [], [], set()
+    for rec in recs:
+        key = json.dumps([rec['ref'], rec['br']], sort_keys=True)
+        if key in seen:
+            continue
+        seen.add(key)
+        r = CaseResult(case_id='test_solve:' + rec['test'][:80])
+        r.tags = ['repository_test_solve']
+        flat = [x for b in rec['br'] for x in b['imm'] + b['src']]
+        if not all(math.isfinite(x) for x in flat):
+            r.skipped = 'recorded_network_with_non_finite_value'
+            yield (json.dumps({'test_solve': rec['test']}), r)
+            continue
+        labels = sorted({b['n1'] for b in rec['br']} | {b['n2'] for b in rec['br']})
+        idx = {l: k for k, l in enumerate(labels)}
+        br = [{'id': k + 1, 'n1': idx[b['n1']], 'n2': idx[b['n2']], 'e': {'f': b['f'], 'imm': fg(b['imm']), 'src': fg(b['src'])}} for k, b in enumerate(rec['br'])]
+        if any(b['e']['imm'] is None or b['e']['src'] is None for b in br) or rec['ref'] not in idx:
+            r.skipped = 'recorded_network_not_exactly_rational'
+            yield (json.dumps({'test_solve': rec['test']}), r)
+            continue
+        sol = exact_solve(br, idx[rec['ref']])
+        if sol is None:
+            r.skipped = 'recorded_network_singular'
+            yield (json.dumps({'test_solve': rec['test']}), r)
+            continue
+        phi, flow = sol
+        events.append({'tid': len(events) + 1, 'br': br, 'ref': idx[rec['ref']], 'phi': [phi[n].j() for n in range(len(labels))], 'flow': [f.j() for f in flow]})
+        meta.append((rec, br, labels, phi, flow, r))
+    if not events:
+        return
+    verdicts, _ = judge('Trace_C01.tla', events, shards=4, implicit_ok=True)
+    for k, (rec, br, labels, phi, flow, r) in enumerate(meta):
+        v = verdicts[k + 1]['v']
+        if v == 'plant_not_well_posed' or v.startswith('skipped'):
+            r.skipped = 'recorded_network_outside_topological_test' if v == 'plant_not_well_posed' else v
+            yield (json.dumps({'test_solve': rec['test']}), r)
+            continue
+        if v != 'ok':
+            raise MachineryError(f'exact solution of a recorded network rejected by the specification: {v}')
+        sv = max([abs(p_.c()) for p_ in phi.values()] + [abs(complex(*b['src'])) for b in rec['br'] if b['f'] == 'N'] + [1e-9])
+        si = max([abs(f.c()) for f in flow] + [abs(complex(*b['src'])) for b in rec['br'] if b['f'] != 'N'] + [1e-9])
+        for n, lab in enumerate(labels):
+            r.observations += 1
+            got = complex(*rec['phi'][lab])
+            if not close(got, phi[n].c(), sv):
+                r.mismatches.append({'what': f'{rec["test"]}: get_potential({lab!r})', 'got': repr(got), 'want': repr(phi[n].c()), 'signature': 'test_solve:potential', 'detail': json.dumps(rec['br'])[:400]})
+        for b, rb, f in zip(br, rec['br'], flow):
+            lin = b['e']['src'] != [[0, 1], [0, 1]] and b['e']['imm'] != [[0, 1], [0, 1]]
+            want = -f.c() if lin else f.c()
+            r.observations += 2
+            got = complex(*rec['i'][rb['id']])
+            if not close(got, want, si):
+                r.mismatches.append({'what': f'{rec["test"]}: get_current({rb["id"]!r})', 'got': repr(got), 'want': repr(want), 'signature': 'test_solve:current', 'detail': json.dumps(rec['br'])[:400]})
+            gu, wu_ = complex(*rec['u'][rb['id']]), (phi[b['n1']] - phi[b['n2']]).c()
+            if not close(gu, wu_, sv):
+                r.mismatches.append({'what': f'{rec["test"]}: get_voltage({rb["id"]!r})', 'got': repr(gu), 'want': repr(wu_), 'signature': 'test_solve:voltage', 'detail': json.dumps(rec['br'])[:400]})
+        yield (json.dumps({'test_solve': rec['test']}), r)
+
+
 def extra(tier, seed, ctx, pool):
     import random, json
     from ..trace import judge
@@ -354,6 +436,10 @@ def extra(tier, seed, ctx, pool):
                     if not close(s_.get_current(bid), want, si):
                         r.mismatches.append({'what': f'{path}: get_current({bid!r})', 'got': repr(s_.get_current(bid)), 'want': repr(want), 'signature': 'example:current', 'detail': ''})
             yield (json.dumps({'example': path}), r)
+    # ---- the steady-state solves of the repository's OWN tests (recorded by harness/pytest_tracer.py from outside): the exact solution of
+    # every recorded network is judged by TLC, the answers the tests were given are compared with it
+    for item in recorded_test_solves(tier):
+        yield item
     rng = random.Random(seed * 101 + 1)
     n_nets = 160 if tier == 'quick' else 4000
     plants, events = [], []
